@@ -18,8 +18,8 @@ Python idioms and their models
 * `while xs:` loops             → fuel = length of the list they consume
 * `list.remove(x)` / `.index(x)`→ `List.erase` / `List.idxOf` (total; the element is always present, see
                                    `Lemmas/NameSort.lean`: `manual_*`)
-* `suffixToMagnet[suffix]`      → `AL.get?` with the suffix itself as fall-back (the code would raise `KeyError`;
-                                   the correspondence run compares exceptions too)
+* `suffixToMagnet[suffix]`      → `AL.get?` with the suffix itself as fall-back; the fall-back is never used
+                                   (`Lemmas/NameSortMagnets.lean`: the key is always present, no `KeyError`)
 Core Lean only.
 -/
 import DefconModel.Util.AL
